@@ -42,7 +42,7 @@ Print Assumptions C06_indent_total.
 
 (* the skip functions of the typed decoders (skipValue, skipObject, skipArray): a loop over the bytes
    (no recursion, so no stack to exhaust) that never reads past the sentinel, whatever the input *)
-Theorem C06_skip_total : forall depth data, sk_value depth (data ++ [0]) <> SStuck.
+Theorem C06_skip_total : forall depth data, sk_value depth (data ++ [0]) <> SStuck /\ sk_value depth (data ++ [0]) <> SFuel.
 Proof. exact skip_value_never_stuck. Qed.
 Print Assumptions C06_skip_total.
 
